@@ -94,6 +94,17 @@ impl<'a> TerminalWriter<'a> {
         &&& sh.start < 0x1_0000_0000 && sh.row_stride < 0x1_0000_0000 && sh.col_stride < 0x1_0000_0000
     }
 
+    //@ fn impl<'a> TerminalWriter<'a> :: set_cursor ret=r vis=strip
+    //@+ requires old(self).inv(),
+    //@+ ensures
+    //@+     // the only other way to move the cursor keeps the writer invariant: the position is clamped into the surface
+    //@+     r.inv(), *final(self) == *final(r),
+    //@+     r.cursor.col == (if pos.col <= old(self).surf.g_shape().width { pos.col } else { old(self).surf.g_shape().width }),
+    //@+     r.cursor.row == (if pos.row <= old(self).surf.g_shape().height { pos.row } else { old(self).surf.g_shape().height }),
+    //@+     r.surf == old(self).surf, r.size == old(self).size,
+    //@subst N12 std::cmp::min routed through min_usize /\bmin\(pos\.col, self\.size\(\)\.width\)/min_usize(pos.col, self.size().width)/
+    //@subst N12 std::cmp::min routed through min_usize /\bmin\(pos\.row, self\.size\(\)\.height\)/min_usize(pos.row, self.size().height)/
+
     //@ fn impl<'a> TerminalWriter<'a> :: size ret=r vis=strip
     //@+ ensures r.height == self.surf.g_shape().height, r.width == self.surf.g_shape().width,
 
